@@ -138,7 +138,22 @@ pub fn seeds(thorough: bool) -> Vec<Seed> {
 #[derive(Clone, Copy, Debug, PartialEq)]
 pub struct Fault { pub off: u32, pub op: u8 }
 
-pub const OPS: [&str; 15] = ["truncate-here", "=0x00", "=0xFF", "^0x01", "^0x80", "+1", "-1", "u16=0xFFFF", "u16=0x7FFF", "u32=0xFFFFFFFF", "u32=0x7FFFFFFF", "u32=0x80000000", "delete-byte", "duplicate-byte", "delete-part"];
+pub const OPS: [&str; 20] = ["truncate-here", "=0x00", "=0xFF", "^0x01", "^0x80", "+1", "-1", "u16=0xFFFF", "u16=0x7FFF", "u32=0xFFFFFFFF", "u32=0x7FFFFFFF", "u32=0x80000000", "delete-byte", "duplicate-byte", "delete-part",
+    "number:=0", "number:=99999999", "number:=4294967295", "number:=18446744073709551616", "cellref:=XFD1048576"];
+
+/// start of a decimal number / of an A1 cell reference in a text part
+fn number_at(b: &[u8], i: usize) -> Option<usize> {
+    if !b[i].is_ascii_digit() || (i > 0 && (b[i - 1].is_ascii_alphanumeric() || b[i - 1] == b'.')) { return None; }
+    let mut j = i; while j < b.len() && b[j].is_ascii_digit() { j += 1; }
+    Some(j)
+}
+fn cellref_at(b: &[u8], i: usize) -> Option<usize> {
+    if !b[i].is_ascii_uppercase() || (i > 0 && !(b[i - 1] == b'"' || b[i - 1] == b':' || b[i - 1] == b'.' || b[i - 1] == b'$')) { return None; }
+    let mut j = i; while j < b.len() && b[j].is_ascii_uppercase() { j += 1; }
+    if j - i > 3 || j >= b.len() || !b[j].is_ascii_digit() { return None; }
+    let mut k = j; while k < b.len() && b[k].is_ascii_digit() { k += 1; }
+    if k < b.len() && (b[k] == b'"' || b[k] == b':' || b[k] == b']' || b[k] == b'<') { Some(k) } else { None }
+}
 
 pub fn apply(b: &[u8], f: Fault) -> Option<Vec<u8>> {
     let i = f.off as usize;
@@ -155,6 +170,8 @@ pub fn apply(b: &[u8], f: Fault) -> Option<Vec<u8>> {
         9..=11 => { if i + 4 > v.len() { return None; } let w: u32 = match f.op { 9 => 0xFFFF_FFFF, 10 => 0x7FFF_FFFF, _ => 0x8000_0000 }; if v[i..i + 4] == w.to_le_bytes() { return None; } v[i..i + 4].copy_from_slice(&w.to_le_bytes()); }
         12 => { v.remove(i); }
         13 => { let x = v[i]; v.insert(i, x); }
+        15..=18 => { let j = number_at(b, i)?; let rep: &[u8] = match f.op { 15 => b"0", 16 => b"99999999", 17 => b"4294967295", _ => b"18446744073709551616" }; if &b[i..j] == rep { return None; } v.splice(i..j, rep.iter().copied()); }
+        19 => { let j = cellref_at(b, i)?; v.splice(i..j, b"XFD1048576".iter().copied()); }
         _ => { v.clear(); }
     }
     Some(v)
@@ -175,6 +192,10 @@ pub fn enumerate(seeds: &[Seed], thorough: bool) -> Vec<Case> {
                 if off >= 3000 && off % 7 != 0 && !thorough { continue; }
                 if off >= 12000 && off % 5 != 0 { continue; }
                 for op in &ops { v.push(Case { seed: si as u16, target: ti as u16, a: Fault { off: off as u32, op: *op }, b: None }); }
+                if !t.binary {
+                    if number_at(&t.bytes, off).is_some() { for op in 15..=18u8 { v.push(Case { seed: si as u16, target: ti as u16, a: Fault { off: off as u32, op }, b: None }); } }
+                    if cellref_at(&t.bytes, off).is_some() { v.push(Case { seed: si as u16, target: ti as u16, a: Fault { off: off as u32, op: 19 }, b: None }); }
+                }
             }
             if t.label.starts_with("member ") { v.push(Case { seed: si as u16, target: ti as u16, a: Fault { off: 0, op: 14 }, b: None }); }
             if thorough && t.binary {
@@ -349,7 +370,7 @@ fn message_class(m: &str) -> &'static str {
 
 pub fn check(rep: &Report) {
     let t = crate::thorough(&rep.tier);
-    rep.rule("seeds = generated workbooks (quick: a small xlsx, xlsb, ods, xls and an xls with a VBA project; thorough: + the feature-rich C07 workbooks and a v4 container); fault targets = every zip member after inflation (re-zipped with valid CRC), the raw zip bytes, the BIFF8 Workbook stream (re-wrapped in a valid compound file), the raw compound-file bytes (header, FAT, directory, mini stream), the decompressed VBA dir stream (re-compressed) and a compressed module stream; faults = at every byte offset {truncate here, =0x00, =0xFF, ^0x01, ^0x80, +1, -1, u16=0xFFFF/0x7FFF, u32=0xFFFFFFFF/0x7FFFFFFF/0x80000000, delete byte, duplicate byte} (text parts: 8 of them), every member deleted; thorough: + all pairs of 5 field-sized overwrite combinations inside the first 160 bytes of every binary target; every case runs new(), ranges (default and header row 2), formulas, worksheets(), metadata, vba_project + modules, merge cells / tables / range_ref, and auto-detection, in a worker process with a panic hook (overflow checks on), an allocator that refuses a single request above max(64 MiB, 4096 x input length) or 4 GiB live, and a 10 s no-progress watchdog; non-trivial = the faulted file differs from the seed; distinct by (seed, target, fault)");
+    rep.rule("seeds = generated workbooks (quick: a small xlsx, xlsb, ods, xls and an xls with a VBA project; thorough: + the feature-rich C07 workbooks and a v4 container); fault targets = every zip member after inflation (re-zipped with valid CRC), the raw zip bytes, the BIFF8 Workbook stream (re-wrapped in a valid compound file), the raw compound-file bytes (header, FAT, directory, mini stream), the decompressed VBA dir stream (re-compressed) and a compressed module stream; faults = at every byte offset {truncate here, =0x00, =0xFF, ^0x01, ^0x80, +1, -1, u16=0xFFFF/0x7FFF, u32=0xFFFFFFFF/0x7FFFFFFF/0x80000000, delete byte, duplicate byte} (text parts: 8 of them, plus every decimal number replaced by {0, 99999999, 4294967295, 2^64} and every cell reference by XFD1048576), every member deleted; thorough: + all pairs of 5 field-sized overwrite combinations inside the first 160 bytes of every binary target; every case runs new(), ranges (default and header row 2), formulas, worksheets(), metadata, vba_project + modules, merge cells / tables / range_ref, and auto-detection, in a worker process with a panic hook (overflow checks on), an allocator that refuses a single request above max(64 MiB, 4096 x input length) or 4 GiB live, and a 10 s no-progress watchdog; non-trivial = the faulted file differs from the seed; distinct by (seed, target, fault)");
     rep.assume("'time proportional to the input' is checked as 'no case stalls for 10 s' (cases take well under 10 ms); 'memory out of proportion' as the allocator thresholds; random multi-fault combinations beyond the enumerated pairs are not covered");
     rep.max_keys.store(2000, std::sync::atomic::Ordering::Relaxed);
     let sd = seeds(t);
@@ -397,11 +418,12 @@ pub fn check(rep: &Report) {
                     if let Some(why) = why { events.push((idx as usize, "abort".into(), format!("{}", STAGES[stage as usize % 8]), why, String::new())); }
                     resume_from = Some(idx as usize + 1);
                 }
-            } else if ts != 0 && idx != u64::MAX && crate::engine::crumb::now_ms().saturating_sub(ts) > 10_000 {
+            } else if ts != 0 && idx != u64::MAX && crate::engine::crumb::now_ms().saturating_sub(ts) > (if hang_files.len() < 3 { 10_000 } else { 1_500 }) {
+                // 10 s without progress (cases take milliseconds); once three hangs are established a 1.5 s stall is enough
                 let _ = w.child.kill();
                 let _ = w.child.wait();
                 finished = true;
-                events.push((idx as usize, "hang".into(), STAGES[stage as usize % 8].to_string(), "no progress for 10 s".into(), String::new()));
+                events.push((idx as usize, "hang".into(), STAGES[stage as usize % 8].to_string(), if hang_files.len() < 3 { "no progress for 10 s".to_string() } else { "no progress for 1.5 s (after three 10 s hangs)".to_string() }, String::new()));
                 hang_files.push(idx as usize);
                 resume_from = Some(idx as usize + 1);
             }
@@ -431,7 +453,14 @@ pub fn check(rep: &Report) {
     let sym = symbolise(&events.iter().flat_map(|e| e.4.split(',').map(|s| s.to_string())).collect::<Vec<_>>(), &exe.to_string_lossy());
     let repo_frames = |bt: &str| -> Vec<String> {
         let mut v = vec![];
-        for a in bt.split(',') { if let Some(fr) = sym.get(a) { for (_f, loc) in fr { if loc.starts_with("/repo/src/") { v.push(normalise_site(&loc.rsplitn(2, ':').last().map(|x| x.to_string()).unwrap_or_default())); } } } }
+        for a in bt.split(',') { if let Some(fr) = sym.get(a) { for (_f, loc) in fr { if loc.starts_with("/repo/src/") {
+            let fl = loc.rsplitn(2, ':').last().map(|x| x.to_string()).unwrap_or_default(); // file:line
+            let line: usize = fl.rsplit(':').next().and_then(|x| x.parse().ok()).unwrap_or(0);
+            if line <= 1 { continue; } // artificial attribution of inlined code
+            let site = normalise_site(&fl);
+            if site.contains("|use ") || site.ends_with('|') { continue; }
+            v.push(site);
+        } } } }
         v
     };
     let mut by_key: BTreeMap<String, Vec<(usize, String)>> = BTreeMap::new();
@@ -441,7 +470,9 @@ pub fn check(rep: &Report) {
         let frames = repo_frames(bt);
         let key = match kind.as_str() {
             "panic" => {
-                if site.starts_with("src/utils.rs|") { match frames.iter().find(|f| !f.starts_with("src/utils.rs|")) { Some(c) => format!("panic @ {site} <- {c}"), None => format!("panic @ {site}") } }
+                // the little-endian helpers of utils.rs are shared by all binary parsers: qualify by format and fault target
+                // (a caller taken from the backtrace would depend on the optimiser's inlining and is therefore not used as a key)
+                if site.starts_with("src/utils.rs|") { format!("panic @ {site} [{fmt}: {}]", sd[c.seed as usize].targets[c.target as usize].label.split(' ').take(3).collect::<Vec<_>>().join(" ")) }
                 else if !site.starts_with("src/") { match frames.first() { Some(c) => format!("panic @ {site} <- {c}"), None => format!("panic @ {site}") } }
                 else { format!("panic @ {site}") }
             }
